@@ -113,6 +113,41 @@ def keep_corpus(d, pid, name):
             os.remove(out)
 
 
+RELATED = {
+    'envs/transition_functions.py': ['C01', 'C08', 'C09', 'C10', 'C11'],
+    'grid.py': ['C03', 'C05', 'C07', 'C18'],
+    'grid_object.py': ['C08', 'C10', 'C16', 'C03'],
+    'envs/observation_functions.py': ['C05', 'C06', 'C07', 'C03'],
+    'envs/visibility_functions.py': ['C06', 'C05', 'C02'],
+    'envs/reset_functions.py': ['C13', 'C14', 'C02'],
+    'envs/reward_functions.py': ['C12', 'C01', 'C03'],
+    'envs/terminating_functions.py': ['C12', 'C01'],
+    'representations/': ['C15', 'C16', 'C20'],
+    'gym.py': ['C20', 'C15', 'C17'],
+    'outer_env.py': ['C04', 'C20', 'C15'],
+    'envs/inner_env.py': ['C04', 'C20', 'C02'],
+    'envs/gridworld.py': ['C01', 'C02', 'C04', 'C12'],
+    'envs/yaml/': ['C17', 'C20'],
+    'utils/functions.py': ['C17', 'C12'],
+    'geometry.py': ['C18', 'C05', 'C07', 'C08'],
+    'utils/raytracing.py': ['C19', 'C06'],
+    'spaces.py': ['C01', 'C15', 'C20'],
+    'rng.py': ['C13', 'C02', 'C14'],
+    'utils/fast_copy.py': ['C03', 'C09', 'C01'],
+    'envs/utils.py': ['C08', 'C18', 'C12'],
+}
+
+
+def related_props(name, own):
+    files = [l[6:].strip() for l in open(os.path.join(SEEDED, name, 'patch.diff')) if l.startswith('+++ b/')]
+    out = []
+    for f in files:
+        for k, ps in RELATED.items():
+            if k in f:
+                out += [p for p in ps if p != own and p not in out]
+    return out
+
+
 def cmd_run(argv):
     tier = argv[argv.index('--tier') + 1] if '--tier' in argv else 'quick'
     props = argv[argv.index('--props') + 1].split(',') if '--props' in argv else None
@@ -121,7 +156,7 @@ def cmd_run(argv):
         if flag in argv:
             i = argv.index(flag)
             skip |= {i, i + 1}
-    subs = [a for i, a in enumerate(argv) if i not in skip]
+    subs = [a for i, a in enumerate(argv) if i not in skip and a != '--related']
     for name in sorted(os.listdir(SEEDED)):
         if subs and not any(s in name for s in subs):
             continue
@@ -134,10 +169,11 @@ def cmd_run(argv):
                 print(f'{name}: patch no longer applies: {msg[:200]}')
                 continue
             line = f'{name}:'
-            for pid in props or [meta['breaks_property']] + meta.get('also_check', []):
+            related = '--related' in argv
+            for pid in props or ([meta['breaks_property']] if not related else related_props(name, meta['breaks_property'])):
                 rc, m, err = check(d, pid, tier)
                 verdict = 'CAUGHT' if rc == 1 else f'MISSED(exit {rc})'
-                if rc == 1:
+                if rc == 1 and pid == meta['breaks_property']:
                     keep_corpus(d, pid, name)
                 meta['detected_by'][f'{pid}:{tier}'] = {'verdict': verdict, 'message': (m[0][:300] if m else '')}
                 line += f' {pid}={verdict}' + (f' ({m[0][:140]})' if rc == 1 and m else '') + (f' ERR {err}' if rc == 2 else '')
